@@ -87,11 +87,17 @@ def make(oscore):
 
 def rfc_parse_option(value):
     """Returns dict(piv, kid, ctx, group) or None when the option is malformed per RFC 8613
-    §6.1 (reserved bits, reserved n = 6/7, announced fields missing)."""
+    §6.1 (reserved bits, reserved n = 6/7, announced fields missing; an option whose flag bits are
+    all zero "SHALL be empty"; the kid, if any, is everything behind the other fields - so without
+    the k flag nothing may be left over) and §5 (Partial IV: "all leading bytes of value zero SHALL
+    be removed ... except in the case of Partial IV value 0, which is encoded to the byte string
+    0x00")."""
     if len(value) == 0:
         return {"piv": None, "kid": None, "ctx": None, "group": False}
     flags = value[0]
     rest = value[1:]
+    if flags == 0:
+        return None
     if flags & 0xC0:
         return None
     n = flags & 0x07
@@ -102,6 +108,8 @@ def rfc_parse_option(value):
         if len(rest) < n:
             return None
         piv, rest = rest[:n], rest[n:]
+        if n > 1 and piv[0] == 0:
+            return None
     ctx = None
     if flags & 0x10:
         if len(rest) < 1:
@@ -111,6 +119,8 @@ def rfc_parse_option(value):
             return None
         ctx, rest = rest[1:1 + s], rest[1 + s:]
     kid = rest if flags & 0x08 else None
+    if kid is None and rest:
+        return None
     return {"piv": piv, "kid": kid, "ctx": ctx, "group": bool(flags & 0x20)}
 
 
